@@ -835,6 +835,32 @@ func (c *Ctx) toTransformRule(r *Report, rule string, rs regSpec, ti int) {
 		return
 	}
 	r.Func(c.FuncName(fn))
+	// a twin folded into the other: `return ToTransformChildSA(t)` (the IKE interface contains the Child SA
+	// one) - the whole body is that call on the parameter, and the twin is held to the rule itself
+	if len(fn.Blocks) == 1 && len(fn.Params) == 1 && len(rs.ToTrans) == 2 {
+		if twin := c.Func(rs.Rel, rs.ToTrans[1-ti]); twin != nil && twin != fn {
+			if ret, ok := fn.Blocks[0].Instrs[len(fn.Blocks[0].Instrs)-1].(*ssa.Return); ok && len(ret.Results) == 1 {
+				if call, ok := ret.Results[0].(*ssa.Call); ok && call.Call.StaticCallee() == twin && len(call.Call.Args) == 1 {
+					arg := call.Call.Args[0]
+					if ci, ok := arg.(*ssa.ChangeInterface); ok {
+						arg = ci.X
+					}
+					pure := true
+					for _, ins := range fn.Blocks[0].Instrs {
+						switch ins.(type) {
+						case *ssa.Call, *ssa.ChangeInterface, *ssa.Return, *ssa.DebugRef:
+						default:
+							pure = false
+						}
+					}
+					if arg == ssa.Value(fn.Params[0]) && pure {
+						r.ok(rule, key, c.Pos(fn.Pos()), "delegates to "+rs.ToTrans[1-ti]+" on its own argument, which is checked by this rule", true)
+						return
+					}
+				}
+			}
+		}
+	}
 	var bad []string
 	stores := map[string]*ssa.Store{}
 	for _, b := range fn.Blocks {
